@@ -22,8 +22,9 @@ RUN_TIMEOUT = 300
 NO_SHRINK = {'integrator', 'stepper', 'dim', 'narr'}
 
 SHIPPED_INTEGRATORS = ['EulerIntegrator', 'PECIntegrator', 'EPECIntegrator', 'TVDRK3Integrator', 'LeapFrogIntegrator', 'PEFRLIntegrator']
-USER_INTEGRATORS = ['GOneStage', 'GThreeStage', 'GFiveStage']
+USER_INTEGRATORS = ['GOneStage', 'GThreeStage', 'GFiveStage', 'GThreeSets']
 NEEDS_TWO_EVALS = {'GThreeStage', 'GFiveStage'}
+NEEDS_THREE_EVALS = {'GThreeSets'}
 # shipped steppers with an integrator they are documented / used with
 SHIPPED_STEPPERS = {
     'EulerStep': 'EulerIntegrator', 'WCSPHStep': 'PECIntegrator', 'WCSPHTVDRK3Step': 'TVDRK3Integrator',
@@ -55,7 +56,7 @@ PROPS = {
     ),
 }
 PROBES = {'C04': ['ghost_particles_present', 'periodic_domain', 'two_arrays_different_steppers', 'update_nnps_false', 'second_equation_set',
-                  'py_stage_hook', 'py_hook_injects_particles', 'same_stepper_class_different_parameters', 'py_hook_reads_other_array', 'h_grows_during_step', 'empty_array', 'sourceless_equation_set', 'callback_object_with_false_truth_value', 'several_steps', 'noncontiguous_times', 't0_nonzero', 'sim_schedule', 'shipped_stepper', 'history_compared']}
+                  'py_stage_hook', 'py_hook_injects_particles', 'same_stepper_class_different_parameters', 'py_hook_reads_other_array', 'h_grows_during_step', 'empty_array', 'sourceless_equation_set', 'callback_object_with_false_truth_value', 'same_named_integrator_class_compiled_before', 'three_equation_sets', 'several_steps', 'noncontiguous_times', 't0_nonzero', 'sim_schedule', 'shipped_stepper', 'history_compared']}
 
 
 def needs_isolation(sc):
@@ -130,7 +131,8 @@ def _scenario(t, pr, sim_override=None):
                 periodic=int(pr['stepper'] in ('trace', 'trace_same') and t.bool(0.3)), sim=int(t.bool(0.4)) if sim_override is None else sim_override,
                 sched_seed=t.int(0, 1 << 30), threads=t.choice([2, 3, 4]), c=[float(t.int(1, 9)), float(t.int(1, 9))],
                 move=t.choice([0.0, 0.01, 0.03]), grow=t.choice([1.0, 1.0, 1.3, 1.7]), peer=int(t.bool(0.6)),
-                nosrc_set=(t.choice([0, 1]) if (pr['integrator'] in NEEDS_TWO_EVALS and t.bool(0.35)) else None))
+                nosrc_set=(t.choice([0, 1]) if (pr['integrator'] in NEEDS_TWO_EVALS and t.bool(0.35)) else None),
+                named_groups=int(pr['integrator'] in NEEDS_THREE_EVALS and t.bool(0.6)), decoy=int(t.bool(0.15)))
 
 
 def gen(t, prop, tier):
@@ -222,12 +224,19 @@ def _make_setup(sc):
             else:
                 e1 = body
         eqs = MultiStageEquations([e0, e1]) if integ_name in NEEDS_TWO_EVALS else e0
+        if integ_name in NEEDS_THREE_EVALS:
+            # three sets of the same equation classes that differ in a parameter only; optionally each in a group of the same name
+            sets = [e0, e1, [D.TAcc(dest=nm, sources=names, c=9.0) for nm in names]]
+            if sc.get('named_groups'):
+                from pysph.sph.equation import Group
+                sets = [[Group(equations=e, name='forces')] for e in sets]
+            eqs = MultiStageEquations(sets)
     else:
         eqs = [D.Noop(dest='f', sources=None)]
     return arrays, steppers, integ, eqs
 
 
-def _compile(arrays, integ, eqs, dim, periodic, rs=2.0):
+def _compile(arrays, integ, eqs, dim, periodic, rs=2.0, reference=False):
     from pysph.base.kernels import CubicSpline
     from pysph.base.nnps import LinkedListNNPS, DomainManager
     from pysph.sph.acceleration_eval import make_acceleration_evals
@@ -235,13 +244,19 @@ def _compile(arrays, integ, eqs, dim, periodic, rs=2.0):
     import pysph.sph.equation as _EQ
     _EQ.group_counter = _EQ._counter()
     a_evals = make_acceleration_evals(arrays, eqs, CubicSpline(dim=dim))
-    comp = SPHCompiler(a_evals, integ)
-    comp.compile()
+    if reference:
+        # the literal execution gets every equation set compiled on its own (no integrator, no sharing between the sets)
+        for ae in a_evals:
+            SPHCompiler(ae, None).compile()
+    else:
+        comp = SPHCompiler(a_evals, integ)
+        comp.compile()
     dom = DomainManager(xmin=0.0, xmax=1.3, periodic_in_x=True) if periodic else None
     nnps = LinkedListNNPS(dim=dim, particles=arrays, radius_scale=rs, sort_gids=True, domain=dom)
     for ae in a_evals:
         ae.set_nnps(nnps)
-    integ.set_nnps(nnps)
+    if not reference:
+        integ.set_nnps(nnps)
     return a_evals, nnps
 
 
@@ -343,7 +358,7 @@ def execute(sc, prop):
             if len(xs) and (xs.min() < 0 or xs.max() > 1.3):
                 raise InvalidScenario('outside the periodic box')
     try:
-        r_evals, r_nnps = _compile(r_arrays, r_integ, r_eqs, dim, periodic)
+        r_evals, r_nnps = _compile(r_arrays, r_integ, r_eqs, dim, periodic, reference=True)
     except Exception as e:
         import traceback
         violate('setup-raised', 'compiling the integrator raised %r\n%s' % (e, traceback.format_exc()[-600:]))
@@ -368,10 +383,21 @@ def execute(sc, prop):
         set_number_of_threads(threads)
         probe('sim_schedule')
     arrays, steppers, integ, eqs = _make_setup(sc)
+    exact_run = sc['stepper'].startswith('trace')
     log = []
     try:
         if sim:
             omp_sim.SCHED.configure(threads, int(sc.get('sched_seed', 0)), 'mixed', watch=arrays, check_prob=0.2)
+        if sc.get('decoy') and exact_run:
+            # another integrator class of the same name (another scheme module, say) was compiled earlier in this process
+            from pysph.base.utils import get_particle_array as _gpa
+            import pysph.sph.integrator as _I
+            Dec = type(type(integ).__name__, (_I.Integrator,), {'one_timestep': _D.decoy_one_timestep})
+            dpa = _gpa(name='f', x=np.array([0.0, 0.1]), h=np.ones(2) * 0.1, m=np.ones(2))
+            for p in ('s', 's0'):
+                dpa.add_property(p)
+            _compile([dpa], Dec(f=_D.TStepB(c=1.0)), [_D.TAcc(dest='f', sources=['f'], c=3.0)], 1, False)
+            probe('same_named_integrator_class_compiled_before')
         a_evals, nnps = _compile(arrays, integ, eqs, dim, periodic)
         c_int = integ.c_integrator
         orig_ca = integ.compute_accelerations
@@ -440,6 +466,8 @@ def execute(sc, prop):
         probe('update_nnps_false')
     if any(e[0] == 'acc' and e[1] == 1 for e in r_log):
         probe('second_equation_set')
+    if any(e[0] == 'acc' and e[1] == 2 for e in r_log):
+        probe('three_equation_sets')
     if sc.get('nosrc_set') in (0, 1) and sc['integrator'] in NEEDS_TWO_EVALS and exact:
         probe('sourceless_equation_set')
     if exact:
